@@ -389,8 +389,48 @@ def r18g(run):
     run.floor("R18g", "contexts chained to a parent", total, 4)
 
 
+def r18h(run):
+    """(i) shape rejections that need no conversion come before the conversions (the strict union stages rely on failing
+    fast); (ii) no handler re-runs the conversion of its own try body (a retry per level doubles the work per level)"""
+    from . import c04
+    g = run.repo.func("utype.parser.rule", "Rule._parse_tuple_args")
+    ga = analysis(g)
+    exceed = [n for n, c in ga.all_calls() if call_attr(c) == "handle_error" and c.args and "TupleExceedError" in unparse(c.args[0])]
+    convs = [n for n, c in ga.all_calls() if is_convert_call(ga, n, c)]
+    run.floor("R18h", "surplus rejections in _parse_tuple_args", len(exceed), 1)
+    for e in exceed:
+        late = [c for c in convs if ga.cfg.can_reach(c, e, kinds=(N,)) and not ga.cfg.can_reach(e, c, kinds=(N,))]
+        run.check("R18h", g, "surplus tuple items are rejected before any item is converted", not late,
+                  construct="length rejection after the conversions",
+                  message="_parse_tuple_args converts the items before it rejects a tuple that is too long",
+                  necessity="each strict stage of an enclosing union converts the nested value completely and then fails "
+                            "on the length: three full descents per nesting level (3^depth for Optional[Tuple[int, 'T']])",
+                  node=e.ast)
+    total = 0
+    for f in c04.in_scope_functions(run):
+        for t in walk_shallow(f.node):
+            if not isinstance(t, ast.Try):
+                continue
+            body_calls = {call_attr(c) for st in t.body for c in walk_shallow(st) if isinstance(c, ast.Call)}
+            body_calls &= {"init_dataclass", "transformer", "apply", "parse", "logical_parse", "parse_value", "parse_data",
+                           "__call__", "parser"}
+            if not body_calls:
+                continue
+            total += 1
+            for h in t.handlers:
+                again = {call_attr(c) for st in h.body for c in walk_shallow(st) if isinstance(c, ast.Call)} & body_calls
+                run.check("R18h", f, f"the handler of `try: {sorted(body_calls)}` does not run the conversion again", not again,
+                          construct=f"handler retries {sorted(again)}",
+                          message=f"{f.qualname}: an `except {unparse(h.type) if h.type else ''}` handler calls "
+                                  f"{sorted(again)} again after the same call failed in the try body",
+                          necessity="ParseError derives from TypeError / ValueError: every ordinary nested failure is "
+                                    "retried at every level, so rejecting one invalid leaf under d data-class levels costs "
+                                    "2^d conversions", node=h)
+    run.floor("R18h", "try blocks around conversions", total, 8)
+
+
 def check(run):
-    run.rules_run += ["R18a", "R18b", "R18c", "R18d", "R18e", "R18f", "R18g"]
+    run.rules_run += ["R18a", "R18b", "R18c", "R18d", "R18e", "R18f", "R18g", "R18h"]
     run.explain("C18: (R18a) the route parameter of RuntimeContext is tested None-exactly, depth is inherited, "
                 "incremented by one on the no-route branch only and compared with `>`; (R18b) every context.enter site "
                 "passes a non-None route and enter() chains context/route/options; (R18c) data-class contexts are "
@@ -405,3 +445,4 @@ def check(run):
     r18e(run)
     r18f(run)
     r18g(run)
+    r18h(run)
